@@ -41,11 +41,11 @@ RULE = (
     "named as trigger of an open known finding are kept out of these strata and exercised by the probes."
 )
 STRATA = {
-    "enum_pos": (5544, 110880),
-    "table_pos": (3600, 150000),
-    "table_mixed": (5000, 200000),
-    "hist_text": (3000, 100000),
-    "hist_bin": (2500, 80000),
+    "enum_pos": (5868, 117360),
+    "table_pos": (8000, 150000),
+    "table_mixed": (10000, 200000),
+    "hist_text": (6000, 100000),
+    "hist_bin": (5000, 80000),
 }
 REQUIRED_ORACLES = [
     "cells_roundtrip", "masks_roundtrip", "names_roundtrip", "bcif_cells_roundtrip",
@@ -1115,7 +1115,7 @@ def hist_step(H):
     is_text_cat = (not flv.binary) and level == 2
     ops = ["set_new", "set_new", "set_existing", "get", "get_missing", "delete", "delete_missing", "contains", "len_iter",
            "eq", "pop", "pop_default", "popitem", "update", "setdefault", "clear", "rename", "wrong_type",
-           "reparse", "reparse", "get_method", "views", "resize_sole_column", "block_property"]
+           "reparse", "reparse", "get_method", "views", "resize_sole_column", "block_property", "set_serialized"]
     op = pick(rng, ops)
     if H.reparsed:
         H.lazy_since = True
@@ -1130,6 +1130,20 @@ def hist_step(H):
         ctx.log(op, path, key, child)
         raw = level == 2 and rng.random() < 0.3 and (not flv.binary or not any(infer_mask(child["values"])))
         cont[key] = list(child["values"]) if raw else make(flv, child, level + 1, int(rng.integers(12)))
+        m[key] = child
+        if level == 2 and m.nrows is None:
+            m.nrows = len(child["values"])
+        H.mutated = True
+    elif op == "set_serialized":
+        # the binary containers document that an element may be given in serialised (dict) form
+        if not flv.binary:
+            return
+        key = pick(rng, keys) if keys and rng.random() < 0.3 else H.new_key(level, m)
+        child = H.gen_child(level, m)
+        if not H.serialisable(child, level + 1) if level < 2 else False:
+            return
+        ctx.log("set_serialized", path, key, child)
+        cont[key] = make(flv, child, level + 1, int(rng.integers(12))).serialize()
         m[key] = child
         if level == 2 and m.nrows is None:
             m.nrows = len(child["values"])
@@ -1204,6 +1218,15 @@ def hist_step(H):
             ctx.fail("eq_reflects_content", "%s == container rebuilt from the model is False" % where)
         if cont == 5:
             ctx.fail("eq_reflects_content", "%s == 5" % where)
+        if level == 2 and keys:
+            k = pick(rng, keys)
+            col, tcol = cont[k], make(flv, m[k], 3, int(rng.integers(12)))
+            pcol = make(flv, _perturb(m[k], 3), 3, int(rng.integers(12)))
+            if flv.binary and not allowed(ctx, T_BCIF_EQ):
+                col.serialize(), tcol.serialize(), pcol.serialize()
+            ctx.oracle("eq_reflects_content")
+            if not (col == tcol) or col != tcol or col == pcol or not (col != pcol) or col == "x":
+                ctx.fail("eq_reflects_content", "column %s[%r]: == / != against an equal and a different column is wrong" % (where, k))
         # perturbed twin
         pm = {k: v for k, v in m.items()}
         kind = int(rng.integers(3))
